@@ -34,7 +34,7 @@ pub struct CidTxn { pub v: Cid }
 impl core::ops::Deref for CidTxn { type Target = Cid; fn deref(&self) -> (r: &Cid) ensures *r == self.v { &self.v } }
 impl CidTxn {
     pub fn set(&mut self, c: Cid) ensures final(self).v == c { self.v = c; }                      // `*cid = c` (DerefMut of the CowCell write handle)
-    #[verifier::external_body] pub fn commit(self) { unimplemented!() }                           // publishes the new maximum to later transactions
+    #[verifier::external_body] pub fn commit(self) requires publish_ok() { unimplemented!() }      // publishes the new maximum to later transactions
 }
 impl CidCell { pub fn write(&self) -> (r: CidTxn) ensures r.v == self.max { CidTxn { v: Cid { ts: self.max.ts, s_uuid: self.max.s_uuid } } } }
 pub struct Backend { pub o: u8 }
@@ -42,18 +42,23 @@ pub struct BackendWriteTransaction { pub o: u8 }
 impl Backend { #[verifier::external_body] pub fn write(&self) -> (r: Result<BackendWriteTransaction, OperationError>) { unimplemented!() } }
 // the storage transaction: remembers the maximum change time written into it; `stored_ok(b)` = its commit reported success
 pub uninterp spec fn stored_ok(b: BackendWriteTransaction) -> bool;
+// C04 protocol for the commit path: server-wide state (change-id maximum, schema, domain info, configuration, phase, caches, key
+// providers, access controls) may be PUBLISHED to readers only once the storage transaction's own commit has reported success.
+// Finding F12 (known-findings.txt): commit() publishes first — `f12_known_gap()` exempts it; the reproduction removes the exemption.
+pub open spec fn f12_known_gap() -> bool { true }
+pub open spec fn publish_ok() -> bool { f12_known_gap() || exists|b: BackendWriteTransaction| #[trigger] stored_ok(b) }
 impl BackendWriteTransaction {
     pub uninterp spec fn ts_max(&self) -> Option<Duration>;
     #[verifier::external_body] pub fn set_db_ts_max(&mut self, ts: Duration) -> (r: Result<(), OperationError>) ensures r is Ok ==> final(self).ts_max() == Some(ts) { unimplemented!() }
     #[verifier::external_body] pub fn commit(self) -> (r: Result<(), OperationError>) ensures r is Ok ==> stored_ok(self) { unimplemented!() }
 }
 impl<T> Txn<T> {
-    #[verifier::external_body] pub fn commit(self) { unimplemented!() }
+    #[verifier::external_body] pub fn commit(self) requires publish_ok() { unimplemented!() }
     #[verifier::external_body] pub fn clear(&mut self) { unimplemented!() }
 }
 pub struct SchemaTxn { pub o: u8 } pub struct FallibleTxn { pub o: u8 }
-impl SchemaTxn { #[verifier::external_body] pub fn commit(self) -> (r: Result<(), OperationError>) { unimplemented!() } }
-impl FallibleTxn { #[verifier::external_body] pub fn commit(self) -> (r: Result<(), OperationError>) { unimplemented!() } }
+impl SchemaTxn { #[verifier::external_body] pub fn commit(self) -> (r: Result<(), OperationError>) requires publish_ok() { unimplemented!() } }
+impl FallibleTxn { #[verifier::external_body] pub fn commit(self) -> (r: Result<(), OperationError>) requires publish_ok() { unimplemented!() } }
 #[derive(Clone, Copy)] pub struct ServerPhase { pub o: u8 }
 #[derive(Clone, Copy)] pub struct DomainInfo { pub o: u8 }
 #[derive(Clone, Copy)] pub struct SystemConfig { pub o: u8 }
